@@ -45,6 +45,17 @@ fn problems() -> Vec<Prob> {
             y0: vec![1.0],
             linear_homogeneous: false,
         },
+        // the same with a faster outflow: the tank runs dry inside the interval, and the first stage of
+        // an oversized first step already leaves the domain
+        Prob {
+            name: "fast draining tank y'=-3 sqrt(y)".into(),
+            n: 1,
+            f: Arc::new(|_t, y, d| d[0] = -3.0 * y[0].sqrt()),
+            jac: Some(Arc::new(|_t, y| vec![-1.5 / y[0].sqrt()])),
+            flow: None,
+            y0: vec![1.0],
+            linear_homogeneous: false,
+        },
         Prob {
             name: "tracking y'=-2000(y-cos t)".into(),
             n: 1,
